@@ -49,7 +49,7 @@ def sany(path):
 
 
 _RUNS = 0
-_COV_ACT = re.compile(r'^<(\w+) line \d+, col \d+ to line \d+, col \d+ of module (\w+)>: (\d+):(\d+)')
+_COV_ACT = re.compile(r'^<(\w+) line \d+, col \d+ to line \d+, col \d+ of module (\w+)(?: \([\d ]+\))?>: (\d+):(\d+)')
 
 
 def run(module, cfg, workdir, workers=16, simulate=None, depth=None, seed=None, coverage=True,
